@@ -18,7 +18,8 @@ pub fn supported(m: Mnemonic) -> bool {
 pub enum Class {
     Data,    // C01/C02/C06: arithmetic, moves, …
     Branch,  // C03
-    Stack,   // C04
+    Stack,   // C04: push / pop
+    CallRet, // C03 and C04
     Lea,     // C05
     Os,      // syscall / int / cpuid
 }
@@ -27,7 +28,8 @@ pub fn class_of(m: Mnemonic) -> Class {
     use Mnemonic::*;
     match m {
         Ja | Jae | Jb | Jbe | Je | Jecxz | Jg | Jge | Jl | Jle | Jmp | Jne | Jno | Jnp | Jns | Jo | Jp | Jrcxz | Js => Class::Branch,
-        Call | Ret | Push | Pop => Class::Stack,
+        Call | Ret => Class::CallRet,
+        Push | Pop => Class::Stack,
         Lea => Class::Lea,
         Syscall | Int | Int1 | Int3 | Cpuid => Class::Os,
         _ => Class::Data,
@@ -35,7 +37,7 @@ pub fn class_of(m: Mnemonic) -> Class {
 }
 
 /// structured random candidate: [legacy prefixes] [REX] opcode [modrm [sib] [disp]] [imm]
-fn candidate(rng: &mut Rng) -> Vec<u8> {
+pub fn candidate(rng: &mut Rng) -> Vec<u8> {
     let mut b = vec![];
     match rng.below(12) {
         0 => b.push(0x66),
@@ -206,6 +208,46 @@ pub fn emit_case(rng: &mut Rng, bytes0: &[u8], out: &mut Vec<String>, native_fri
                 }
             } else {
                 fill(co.displacement_offset(), co.displacement_size(), rng, &mut bytes);
+            }
+        }
+    }
+    // re-randomise the register fields (REX.RXB, ModRM.reg/rm, SIB.index/base, opcode+r): the template fixes only the shape, so
+    // aliased operands (same register twice, RSP/RBP/R12/R13 as operand or base, a base that is also the destination) all occur
+    {
+        let d0 = {
+            let mut d = Decoder::with_ip(64, &bytes, CODE, DecoderOptions::NONE);
+            d.decode()
+        };
+        let key0 = (d0.code(), d0.len(), shape_key(&d0));
+        let mut d = Decoder::with_ip(64, &bytes, CODE, DecoderOptions::NONE);
+        let i0 = d.decode();
+        let co = d.get_constant_offsets(&i0);
+        let mut head = bytes.len();
+        if co.has_displacement() {
+            head = head.min(co.displacement_offset());
+        }
+        if co.has_immediate() {
+            head = head.min(co.immediate_offset());
+        }
+        if co.has_immediate2() {
+            head = head.min(co.immediate_offset2());
+        }
+        for _ in 0..rng.below(5) {
+            if head == 0 {
+                break;
+            }
+            let k = rng.below(head as u64) as usize;
+            let mut cand = bytes.clone();
+            match rng.below(3) {
+                0 => cand[k] = (cand[k] & !0x07) | rng.below(8) as u8,
+                1 => cand[k] = (cand[k] & !0x38) | ((rng.below(8) as u8) << 3),
+                _ if cand[k] & 0xf0 == 0x40 => cand[k] = (cand[k] & !0x07) | rng.below(8) as u8,
+                _ => continue,
+            }
+            let mut dd = Decoder::with_ip(64, &cand, CODE, DecoderOptions::NONE);
+            let i1 = dd.decode();
+            if !i1.is_invalid() && (i1.code(), i1.len(), shape_key(&i1)) == key0 {
+                bytes = cand;
             }
         }
     }
